@@ -1634,6 +1634,9 @@ def concretize_bytes(b):
     return bytes(concretize(i) for i in b.items)
 
 
+HASH_BY_PROVENANCE = [False]
+
+
 class SBytes:
     """byte string of concrete length with symbolic (SI) or concrete (int) elements"""
     __slots__ = ("items",)
@@ -1743,6 +1746,13 @@ class SBytes:
         return wrapb(self._ltnode(list(o), self.items, False))
 
     def __hash__(self):
+        if HASH_BY_PROVENANCE[0] and len(self.items) >= 2:
+            # opt-in (harness): byte strings that are the complete decomposition of one integer node hash by that node, so that
+            # dicts keyed by e.g. x-only public keys work without concretising 256-bit values.  Sound only when the harness
+            # assumes that distinct nodes used as keys have distinct values (it must say so).
+            c = n_cat([lift(i) for i in self.items])
+            if c.op not in ("cat", "const"):
+                return hash(("sbytes", c.id, len(self.items)))
         return hash(concretize_bytes(self))
 
     def __bool__(self):
